@@ -517,11 +517,33 @@ def r67(facts, res):
     res.ok(R, 'two-phase', loc_of(b, nb[0][0]), 'phase 1 explores all neighbours; the sweep only follows shifts')
     # sweep keeps only neighbours of the fixed cost
     h2 = min(l2, key=lambda h: len(loops[h]))
-    ins = [(bb, t) for bb, t in b.calls(blocks=loops[h2]) if cname(t) in ('entry', 'insert')]
+    def keeps(t):
+        # a neighbour is kept by entry()/insert() on a bucket, or by calling a local helper closure that does that
+        if cname(t) in ('entry', 'insert'):
+            return True
+        cb = facts.bodies.get(cpath(t) or '')
+        return cb is not None and cb.kind == 'closure' and cb.root_parent == b.path and bool(cb.calls_named('entry') or cb.calls_named('insert'))
+    ins = [(bb, t) for bb, t in b.calls(blocks=loops[h2]) if keeps(t)]
     good = bool(ins)
     for bb, t in ins:
         inner = [h for h in loops if bb in loops[h]]
         ih = min(inner, key=lambda h: len(loops[h]))
+        # the loop may draw its elements from `drain(..).filter(|(cost, _)| *cost == c)`: then every element it sees has the cost
+        filtered = False
+        for nb, nt in b.calls_named('next', loops[ih]):
+            if 'filter::Filter<' not in (callee_of(nt).get('self_ty') or ''):
+                continue
+            for fb_, ft in b.calls_named('filter'):
+                cl = op_local(ft['args'][1]) if len(ft['args']) > 1 else None
+                for _bb, kind, rv in b.defs().get(cl, ()):
+                    if kind == 'stmt' and 'agg' in rv and isinstance(rv['agg'], dict) and 'closure' in rv['agg']:
+                        fcb = facts.bodies.get(rv['agg']['closure'])
+                        fps = Walker(fcb, facts, max_paths=8).run() if fcb is not None else []
+                        if fps and all(p.end[0] == 'return' and p.end[1][0] == 'bin' and p.end[1][1] == 'Eq' and term_has(p.end[1], lambda x: x == ('param', 2))
+                                       and term_has(p.end[1], lambda x: isinstance(x, tuple) and len(x) > 2 and x[0] == 'field' and x[1] in (('param', 1), ('deref', ('param', 1)))) for p in fps):
+                            filtered = b.dominates(fb_, nb)
+        if filtered:
+            continue
         w = Walker(b, facts, max_paths=64)
         ps = [p for p in w.run(ih, stop=lambda x: x == ih or x not in loops[ih]) if bb in p.blocks]
         for p in ps:
